@@ -445,6 +445,18 @@ Section C02.
     let s := build_stream name key ivf f in
     if has_dup (map (fun c => hex (H c)) (s_cts s)) then None else Some s.
 
+  (* create_stream(old_sort=True): same blobs and descriptor, but make_sd_blob writes the legacy field-order JSON
+     and names it by the hash of exactly those bytes; descriptor.sd_hash is that blob's name *)
+  Definition build_stream_old (name : list N) (key : bytes) (ivf : nat -> bytes) (f : bytes) : stream :=
+    let s := build_stream name key ivf f in
+    mkStream (s_desc s) (s_cts s) (old_sort_json (s_desc s)) (old_sd_hash (s_desc s)).
+  Definition create_stream_layout (old_sort : bool) (name : list N) (key : bytes) (ivf : nat -> bytes) (f : bytes)
+    : option stream :=
+    match create_stream name key ivf f with
+    | Some s => Some (if old_sort then build_stream_old name key ivf f else s)
+    | None => None
+    end.
+
   (* --- saving: AbstractBlob.decrypt on every data blob of the descriptor, in order --- *)
   Definition decrypt_blob (key : bytes) (b : blob) (ct : bytes) : option bytes :=
     if negb (Z.eqb (Z.of_nat (length ct)) (b_len b)) then None
